@@ -496,3 +496,7 @@ CHECKS["C18"]["prebuild"] = BIN_PREBUILD
 CHECKS["C18"]["required_classes"]["all"] += ["reload:good", "reload:check-fails", "reload:samedir-unsupported", "reload:unparsable", "reload-with-requests-in-flight"]
 CHECKS["C19"]["jobs"].append(J("hanginghook", VBB, "TestC19HangingHook", {"shards": 1, "timeout": 300}, rapid=False, tiers=("thorough",)))
 CHECKS["C19"]["prebuild"] = BIN_PREBUILD
+
+CHECKS["C13"]["jobs"].append(J("pamencoder", VPAM, "TestC13PamEncoder", {"shards": 1, "timeout": 600}, rapid=False))
+CHECKS["C13"]["prebuild"] = PAM_PREBUILD
+CHECKS["C13"]["required_classes"] = {"all": ["pam-encoder-grid", "grid:combinations"]}
